@@ -3,5 +3,6 @@ CONSTANTS
   G = {1, 2, 3}
   SizeRange = {1, 2, 3}
   CAS = TRUE
-  Emit = TRUE
+  Retries = 0
+  Emit = "all"
 INVARIANTS TypeOK ExactAtQuiescence
